@@ -214,6 +214,7 @@ namespace pika::split_detail {
             os.reset();
 
             predecessor_done = true;
+                PIKA_VERIF_POINT("ss.done.flag", this, 0, 0);
 
             {
                 // We require taking the lock here to synchronize with
@@ -250,6 +251,7 @@ namespace pika::split_detail {
                 // continuations to the vector.
                 std::lock_guard<mutex_type> l{mtx};
             }
+                PIKA_VERIF_POINT("ss.done.locked", this, 0, 0);
 
             if (!continuations.empty())
             {
@@ -300,6 +302,7 @@ namespace pika::split_detail {
                 // lock to potentially add the continuation to the
                 // vector of continuations.
                 std::unique_lock<mutex_type> l{mtx};
+                    PIKA_VERIF_POINT("ss.add.locked", this, 0, 0);
 
                 if (predecessor_done)
                 {
